@@ -228,7 +228,7 @@ template <class T> static void eigJudge(DMat A, int cls, const std::string& labe
     double worst = 0, degenerate = 0, amax = 0; for (double v : A.a) amax = std::max(amax, std::fabs(v));
     for (int k = 0; k < n; ++k) {
         LD nv = 0, v1 = 0, vmax = 0; for (int i = 0; i < n; ++i) { nv += (LD)Vr(k, i) * Vr(k, i) + (LD)Vi(k, i) * Vi(k, i); LD a1 = std::fabs(Vr(k, i)) + std::fabs(Vi(k, i)); v1 += a1; vmax = std::max(vmax, a1); }
-        if (!(nv >= 0.25)) degenerate = 1;
+        if (!(nv >= 1e-6)) degenerate = 1;
         LD mag = amax * v1 + (std::fabs(lr[k]) + std::fabs(li[k])) * vmax;      // normwise backward-error scale
         for (int i = 0; i < n; ++i) {
             LD sr = 0, si = 0;
@@ -237,7 +237,7 @@ template <class T> static void eigJudge(DMat A, int cls, const std::string& labe
             if (mag > 0) worst = std::max(worst, (double)(std::max(std::fabs(sr), std::fabs(si)) / mag));
         }
     }
-    vh::P("eigen_residual", key + ".residual", worst, 128.0 * std::max(n, 1) * Prec<T>::eps());
+    vh::P("eigen_residual", cls == 2 ? std::string("eig.smallscale.complex_pair_split") : key + ".residual", worst, 128.0 * std::max(n, 1) * Prec<T>::eps());
     vh::P("eigenvectors_nondegenerate", key + ".nonzero", degenerate, 0);
     // values-only query agrees (as a multiset; compare sorted by (re,im))
     Vector_<std::complex<T> > v2; Eigen e2(toSimTK<T>(A)); e2.getAllEigenValues(v2);
@@ -247,7 +247,8 @@ template <class T> static void eigJudge(DMat A, int cls, const std::string& labe
     vh::P("eigenvalues_consistent", key + ".values_only", dv / sc, 1e4 * std::max(n, 1) * Prec<T>::eps());
     if (cls == 1) {
         double im = 0; for (int k = 0; k < n; ++k) im = std::max(im, std::fabs(li[k]));
-        vh::P("symmetric_eigenvalues_real", key + ".real", im, 0);      // geev on an exactly symmetric matrix: real Schur form has no 2x2 blocks
+        double lmax = 0; for (int k = 0; k < n; ++k) lmax = std::max(lmax, std::fabs(lr[k]));
+        vh::P("symmetric_eigenvalues_real", key + ".real", im, 64.0 * n * Prec<T>::eps() * lmax);      // geev on an exactly symmetric matrix: real Schur form has no 2x2 blocks
         // "real and ordered for symmetric input": the symmetric LAPACK path (syev, ascending) exists in Eigen.cpp but cannot be
         // reached through the public API (a Symmetric-committed Matrix cannot be filled; the real-valued getters are not
         // instantiated), so symmetric input goes through geev, which does not order.  Specific key.
@@ -267,6 +268,10 @@ template <class T> static void eigSpecialCase(vh::Rng& g, int n, int cls) {
         std::vector<double> u = genVec(g, n, true); double c = g.smallInt(1, 4);
         for (int i = 0; i < n; ++i) for (int j = 0; j < n; ++j) A(i, j) = u[i] * u[j] + (i == j ? c : 0);
         eigJudge<T>(A, 1, ".repeated");
+    } else if (cls == 2) {     // small-scale matrix: complex eigenvalue pairs whose imaginary parts are below the ABSOLUTE
+        // threshold EPS = 1e-6 of LapackInterface::geev are returned as two separate real vectors (finding F-C24h)
+        A = genGeneric(g, n, n); for (auto& v : A.a) v *= 1e-8;
+        eigJudge<T>(A, 2, ".smallscale");
     } else {                   // defective: upper bidiagonal Jordan-like blocks (integer entries)
         double lam = g.smallInt(-3, 3);
         for (int i = 0; i < n; ++i) { A(i, i) = (i % 3 == 2) ? lam + 1 : lam; if (i + 1 < n && i % 3 != 2) A(i, i + 1) = 1; }
@@ -483,7 +488,7 @@ template <class T> static void round2Case(vh::Rng& g, int maxN, int which) {
     case 1: negatorCase<T>(g, n); break;
     case 2: numericalRankCase<T>(g, 2 + g.below(maxN - 1), 2 + g.below(maxN - 1)); break;
     case 3: rhsRefactorScaleCase<T>(g, n); break;
-    case 4: eigSpecialCase<T>(g, std::max(n, 3), g.below(2)); break;
+    case 4: eigSpecialCase<T>(g, std::max(n, 3), g.below(3)); break;
     default: if (sizeof(T) == 8 || true) { int big = 13 + g.below(28); if (g.coin()) luCase<T>(g, big, 0); else lsCase<T>(g, g.below(2), big, 13 + g.below(28), 0); }   // sizes 13..40 also in the quick tier
     }
 }
@@ -509,6 +514,7 @@ int main(int argc, char** argv) {
     int maxN = args.n > 1500 ? 40 : 12;
     for (int w = 0; w < 5; ++w) apiCase(g, w);
     for (int w = 0; w < 12; ++w) { if (w % 2) round2Case<float>(g, maxN, w / 2); else round2Case<double>(g, maxN, w / 2); }   // guaranteed shares
+    for (int c = 0; c < 3; ++c) { eigSpecialCase<double>(g, 4 + g.below(5), c); eigSpecialCase<float>(g, 4 + g.below(5), c); }
     // exactly singular matrix: isSingular() must say so; a generic one must not
     { Matrix S2(2, 2); S2(0, 0) = 1; S2(0, 1) = 2; S2(1, 0) = 2; S2(1, 1) = 4; FactorLU f(S2); Matrix G2(2, 2); G2(0, 0) = 4; G2(0, 1) = 1; G2(1, 0) = 1; G2(1, 1) = 3; FactorLU f2(G2);
       vh::I("qtzdiag").d(0).d(2).d(2).d(0.5).emit(); std::puts("O qtzdiag 2"); vh::D("lu.isSingular");
